@@ -32,6 +32,7 @@ MOCK_CONFIGS = [f + (False, False) for f in FLAVOURS] * 3 + [(False, True, True,
 NAMES = ["a", "A", "b", "B", "c", "é", "É", "中", "a.b", "A.B", ".x", "x.", "...", " "]
 MOCK_ONLY_NAMES = [".", ".."]
 BAD_MOCK = "a`b"
+NOT_INTS = ["3", 1.0, b"1", (1,)]           # values current_cursor must refuse with CloudCursorError
 LONG = "L" * 300
 FP_SPEC = {
     "cloudsync/providers/mock.py": [
@@ -280,7 +281,9 @@ def real_apply(be, ct, op):
         if k == "current":
             return "cur %d" % (p.current_cursor + 1)
         if k == "setcur":
-            p.current_cursor = None if op[1] is None else op[1] - 1
+            # model value = Python value + 1 (the initial cursor -1 is 0); "x" = something that is not an int
+            p.current_cursor = None if op[1] is None else (NOT_INTS[len(str(p.latest_cursor)) % len(NOT_INTS)] if op[1] == "x"
+                                                           else op[1] - 1)
             return "unit"
         if k == "dump":
             rows = []
@@ -453,6 +456,8 @@ class GenState:
     def __init__(self, rng, be, ct, names, bad_names):
         self.rng, self.be, self.ct, self.names, self.bad_names = rng, be, ct, names, bad_names
         self.seen_oids = []
+        self.saved_cursors = []        # model values (Python value + 1) returned by current_cursor / latest_cursor
+        self.after_setcur = False
 
     def rand_parts(self, ref, want_new=None):
         rng = self.rng
@@ -489,8 +494,8 @@ class GenState:
 
 
 OP_WEIGHTS = [("mkdir", 14), ("create", 15), ("upload", 8), ("download", 5), ("rename", 17), ("delete", 10), ("infop", 5),
-              ("infoo", 5), ("existsp", 3), ("existso", 3), ("listdir", 7), ("hasho", 2), ("hashd", 1), ("events", 4),
-              ("latest", 1), ("current", 1), ("setcur", 1)]
+              ("infoo", 5), ("existsp", 3), ("existso", 3), ("listdir", 7), ("hasho", 2), ("hashd", 1), ("events", 5),
+              ("latest", 2), ("current", 2), ("setcur", 5)]
 FS_OPS = {"mkdir", "create", "upload", "download", "rename", "delete", "infop", "infoo", "existsp", "existso", "listdir",
           "hasho", "hashd"}
 
@@ -511,10 +516,24 @@ def gen_op(gs, ref, allowed=None):
     if k == "hashd":
         return ("hashd", tok())
     if k == "setcur":
-        return ("setcur", rng.choice([None, 0, rng.randint(0, 8)]))
+        # rewind / fast-forward: a previously saved cursor, the initial cursor (-1 -> 0), the cursor after exactly one
+        # event (0 -> 1), 1 -> 2, the latest cursor, None, beyond the end, or something that is not an int
+        r = rng.random()
+        if r < 0.35 and gs.saved_cursors:
+            return ("setcur", rng.choice(gs.saved_cursors))
+        return ("setcur", rng.choice([0, 1, 1, 2, None, "x", gs.saved_cursors[-1] if gs.saved_cursors else 0,
+                                      rng.randint(0, 12)]))
     if k in ("events", "latest", "current"):
         return (k,)
     return (k, gs.rand_oid(ref))
+
+
+def cursor_class(v, gs):
+    if v is None:
+        return "None"
+    if v == "x":
+        return "not-int"
+    return {0: "-1", 1: "0", 2: "1"}.get(v, "saved" if v in gs.saved_cursors else "other-int")
 
 
 def shadow_update(gs, ref, op, res):
@@ -576,6 +595,9 @@ def run_sequences(be, ct, rng, nseq, nlen, flavours, layer, names, bad_names, al
         n = rng.randint(3, nlen)
         for i in range(n):
             op = gen_op(gs, ref, allowed)
+            if gs.after_setcur and rng.random() < 0.75:
+                op = ("events",)               # a rewind is followed by a drain
+            gs.after_setcur = op[0] == "setcur"
             if be.kind == "fs" and not fs_op_ok(ref, op):
                 continue
             if be.kind == "mock" and not mock_op_deterministic(be, op):
@@ -586,7 +608,9 @@ def run_sequences(be, ct, rng, nseq, nlen, flavours, layer, names, bad_names, al
             res = real_apply(be, ct, op)
             lines.append(op_line(op, ct))
             reals.append(res)
-            ops_meta.append((op[0], fl))
+            ops_meta.append((op[0] if op[0] != "setcur" else "setcur:" + cursor_class(op[1], gs), fl))
+            if op[0] in ("current", "latest") and res.startswith("cur "):
+                gs.saved_cursors.append(int(res.split(" ")[1]))
             shadow_update(gs, ref, op, res)
         if with_dump:
             lines.append("dump")
@@ -822,6 +846,132 @@ def fs_events_check(fsb, ct, rng, rounds):
     return rounds * 5, right, mangled, missing
 
 
+# ------------------------------------------------------------------ filesystem cursors vs CS.FsCursor
+
+def fscursor_correspondence(fsb, ct, rng, rounds):
+    """FileSystemProvider.latest_cursor / current_cursor (getter and setter) / events() on a dedicated provider object
+    vs the model `CS.FsCursor` (layer `fscursor`).  How many events watchdog delivers for a mutation is the OS's
+    business: the harness waits until `latest_cursor` is stable and tells the model how many arrived (`recv n`);
+    a comparison during which more events arrived is discarded and counted."""
+    from cloudsync.exceptions import CloudCursorError
+    p = fsb.cls()
+    ns = os.path.join(fsb.base, "cursor_ns")
+    p.namespace_id = ns
+    p.connect({"k": "v"})
+    lines, reals, discarded = ["reset"], ["unit"], 0
+
+    def settle():
+        last, same = -1, 0
+        for _ in range(200):
+            cur = p.latest_cursor
+            same = same + 1 if cur == last else 0
+            last = cur
+            if same >= 3:
+                return cur
+            time.sleep(0.04)
+        return last
+
+    known = 0
+    saved = [0]
+    try:
+        for r in range(rounds):
+            for j in range(rng.randint(1, 3)):
+                f = "/c%d_%d" % (r, j)
+                p.create(f, io.BytesIO(b"x" * rng.randint(0, 10)))
+                if rng.random() < 0.4:
+                    p.delete(p.info_path(f).oid)
+            lat = settle()
+            if lat != known:
+                lines.append("recv %d" % (lat - known))
+                reals.append("unit")
+                known = lat
+            lines.append("latest")
+            reals.append("cur %d" % p.latest_cursor)
+            for _ in range(rng.randint(2, 5)):
+                v = rng.choice([0, 1, lat, lat + 1, lat + 2, max(0, lat - 1), None, "x", rng.choice(saved), rng.randint(0, lat + 3)])
+                try:
+                    p.current_cursor = None if v is None else (NOT_INTS[rng.randrange(len(NOT_INTS))] if v == "x" else v)
+                    res = "unit"
+                except CloudCursorError:
+                    res = "!Cursor"
+                except Exception as e:  # noqa
+                    res = err_tok(e)
+                got = "cur %d" % p.current_cursor
+                drained = "drain" + "".join(" %d" % e.new_cursor for e in p.events())
+                after = "cur %d" % p.current_cursor
+                if p.latest_cursor != known:          # events arrived meanwhile: resynchronise, do not compare
+                    discarded += 1
+                    lat = settle()
+                    list(p.events())
+                    lines += ["recv %d" % (lat - known), "setcur ~"]
+                    reals += ["unit", "unit"]
+                    known = lat
+                    p.current_cursor = None
+                    continue
+                lines += ["setcur %s" % ("~" if v is None else v), "current", "drain", "current"]
+                reals += [res, got, drained, after]
+                saved.append(p.current_cursor)
+    finally:
+        time.sleep(0.1)
+        try:
+            p.disconnect()
+        except Exception:  # noqa
+            pass
+    model = run_driver("fscursor", lines)
+    dis = []
+    for i, (r, m) in enumerate(zip(reals, model)):
+        if r != m:
+            dis.append({"layer": "fscursor", "sequence": lines[max(0, i - 8):i + 1], "implementation": r, "model": m})
+            if len(dis) >= 3:
+                break
+    return len(lines), discarded, dis
+
+
+def fs_cursor_law(fsb):
+    """the property's statement on the real FileSystemProvider: after `current_cursor = c` for a saved cursor c
+    (0, 1, latest-1, latest) a drain of events() yields exactly the events stamped c+1 … latest; a non-int is refused."""
+    from cloudsync.exceptions import CloudCursorError
+    p = fsb.cls()
+    p.namespace_id = os.path.join(fsb.base, "cursor_law_ns")
+    p.connect({"k": "v"})
+    try:
+        for j in range(3):
+            p.create("/law%d" % j, io.BytesIO(b"x"))
+        last, same = -1, 0
+        for _ in range(200):
+            cur = p.latest_cursor
+            same = same + 1 if cur == last else 0
+            last = cur
+            if same >= 3:
+                break
+            time.sleep(0.04)
+        lat = p.latest_cursor
+        if lat < 2:
+            return None
+        for c in (0, 1, lat - 1, lat):
+            p.current_cursor = c
+            got = [e.new_cursor for e in p.events()]
+            if p.latest_cursor != lat:
+                return None
+            if got != list(range(c + 1, lat + 1)):
+                return {"provider": "fs", "ops": ["create /law0", "create /law1", "create /law2", "<wait: latest_cursor = %d>" % lat,
+                                                  "current_cursor = %d" % c, "list(events())"],
+                        "failure": "events() after rewinding to the saved cursor %d yielded the stamps %r, expected %r — "
+                                   "mutations after that cursor are never reported" % (c, got, list(range(c + 1, lat + 1)))}
+        try:
+            p.current_cursor = "3"
+            return {"provider": "fs", "ops": ["current_cursor = '3'"], "failure": "a cursor that is not an int was accepted"}
+        except CloudCursorError:
+            pass
+        return None
+    finally:
+        time.sleep(0.1)
+        try:
+            p.disconnect()
+        except Exception:  # noqa
+            pass
+
+
 # ------------------------------------------------------------------ connect state machine
 
 def connect_correspondence(rng, nseq):
@@ -937,8 +1087,9 @@ def contract_oracle(be, ct, rng, flavour, nops, names, bad_names, allowed=None, 
     gs = GenState(rng, be, ct, names, bad_names)
     done = []
     ci_path = be.kind == "mock" and flavour[0] and not flavour[1]
+    log = []                     # every event the contract expects in the stream so far: (oid, exists), index = cursor
     if be.kind == "mock":
-        list(p.events())
+        log = [(e.oid, bool(e.exists)) for e in p.events()]
 
     def fail(msg):
         return {"provider": be.kind, "flavour": {"oid_is_path": flavour[0], "case_sensitive": flavour[1]},
@@ -971,10 +1122,55 @@ def contract_oracle(be, ct, rng, flavour, nops, names, bad_names, allowed=None, 
         got = [(e.oid, bool(e.exists)) for e in p.events()]
         if got != exp:
             return "events() after the call yielded %r, expected %r" % (got, exp)
+        log.extend(exp)
+        return None
+
+    def rewind(k):
+        """set current_cursor to a saved value and drain: exactly the events with index > k, in order"""
+        from cloudsync.exceptions import CloudCursorError
+        if k == "x":
+            for bad in NOT_INTS:
+                try:
+                    p.current_cursor = bad
+                except CloudCursorError:
+                    continue
+                except Exception as e:  # noqa
+                    return "current_cursor = %r raised %s, contract says CloudCursorError" % (bad, type(e).__name__)
+                return "current_cursor = %r (not an int) was accepted" % (bad,)
+            got = [(e.oid, bool(e.exists)) for e in p.events()]
+            return None if got == [] else "a refused cursor assignment moved the cursor: drain yielded %r" % (got,)
+        if k is None:
+            p.current_cursor = None
+            got = [(e.oid, bool(e.exists)) for e in p.events()]
+            return None if got == [] else "current_cursor = None then events() yielded %r, expected nothing" % (got,)
+        if k > len(log) - 1:
+            return None
+        p.current_cursor = k
+        back = p.current_cursor
+        got = [(e.oid, bool(e.exists), e.new_cursor) for e in p.events()]
+        want = [(log[i][0], log[i][1], i) for i in range(k + 1, len(log))]
+        if got == want and back != k:
+            return "current_cursor = %d reads back as %r" % (k, back)
+        if got != want:
+            return ("after current_cursor = %d (a saved cursor; %d events logged) events() yielded %d events %r, expected the "
+                    "%d events with index > %d: %r" % (k, len(log), len(got), got[:4], len(want), k, want[:4]))
         return None
 
     for step_no in range(len(fixed_ops) if fixed_ops is not None else nops):
-        op = fixed_ops[step_no] if fixed_ops is not None else gen_op(gs, ref, allowed)
+        if fixed_ops is not None:
+            op = fixed_ops[step_no]
+        elif be.kind == "mock" and rng.random() < 0.12:
+            op = ("rewind", rng.choice([-1, 0, 0, 1, len(log) - 1, rng.randint(-1, max(0, len(log) - 1)), None, "x"]))
+        else:
+            op = gen_op(gs, ref, allowed)
+        if op[0] == "rewind":
+            if be.kind != "mock":
+                continue
+            done.append(op)
+            m = rewind(op[1])
+            if m:
+                return fail(m)
+            continue
         if op[0] in ("setcur", "events", "latest", "current"):
             continue
         if not guard_ok(ref, op, ci_path):
@@ -1206,6 +1402,9 @@ def shrink(be, ct, rng, flavour, hit, names, bad_names, allowed):
 
 def search(res, tier, seed, broken, mockb, fsb, ct):
     srng = rng_for(seed, "c16search")
+    hit = fs_cursor_law(fsb)
+    if hit:
+        return hit
     n = 600 if tier == "quick" else 6000
     for j in range(n):
         fl = FLAVOURS[j % 4]
@@ -1334,6 +1533,7 @@ def run(res, tier, seed, proof_broken, replay):
         d2 = diff(l2, [strip_name(x) for x in r2], [strip_name(x) for x in model2], "tree(FileSystemProvider)")
         nh, d3 = fshash_correspondence(fsb, rng, tier)
         l4, r4, d4 = connect_correspondence(rng, 60 if tier == "quick" else 1000)
+        nfc, fc_discarded, d5 = fscursor_correspondence(fsb, ct, rng, 6 if tier == "quick" else 60)
         ev_checked, ev_right, ev_mangled, ev_missing = fs_events_check(fsb, ct, rng, 2 if tier == "quick" else 10)
         ev_known = "fs-events-non-move-treated-as-move" in opens
         law_bad = fs_hash_law(fsb, [0, 1, 1023, 1024, 1025, 2047, 2048, 2049, 2050, 4096, 5000])
@@ -1354,7 +1554,7 @@ def run(res, tier, seed, proof_broken, replay):
                            else "dots" if "." in nm else "space" if " " in nm else "upper_case" if nm != nm.lower() else "plain")
                     name_hist[cls] += 1
         res.coverage.update({
-            "evaluations": len(l1) + len(l2) + nh + len(l4), "programs": nseq + fseq + 1 + (60 if tier == "quick" else 1000),
+            "evaluations": len(l1) + len(l2) + nh + len(l4) + nfc, "programs": nseq + fseq + 1 + (60 if tier == "quick" else 1000),
             "distinct_nontrivial": distinct,
             "rule": "adaptive random call sequences (mkdir/create/upload/download/rename/delete/info/exists/listdir/hash/"
                     "events/cursor) aimed by a shadow tree at existing objects, case variants of existing paths, children of "
@@ -1363,7 +1563,8 @@ def run(res, tier, seed, proof_broken, replay):
                     "and pairs equal on their first and last KiB; each mock sequence ends with a dump of the whole object "
                     "table; distinct = distinct (operation line, result) pairs" % (NAMES,),
             "samples": [{"ops": l1[0:8], "results": r1[0:8]}, {"fs_ops": l2[0:6], "results": r2[0:6]}],
-            "disagreements_checked": len(d1) + len(d2) + len(d3) + len(d4),
+            "disagreements_checked": len(d1) + len(d2) + len(d3) + len(d4) + len(d5),
+            "fscursor_lines": nfc, "fscursor_comparisons_discarded": fc_discarded,
             "mock_op_histogram": ops_hist, "mock_flavour_sequences": histogram(str(m[1]) for m in m1 if m[0] == "reset"),
             "mock_result_histogram": out_hist, "fs_result_histogram": fs_out_hist, "fs_sequences": fseq,
             "content_size_classes": size_hist, "name_classes": name_hist, "fshash_lines": nh, "connect_lines": len(l4),
@@ -1380,7 +1581,7 @@ def run(res, tier, seed, proof_broken, replay):
             "a folder rename of a path-style case-insensitive mock whose result depends on Python's set iteration order is not compared (counted as skipped-set-order)",
         ]
         broken = list(proof_broken)
-        for d in (d1, d2, d3, d4):
+        for d in (d1, d2, d3, d4, d5):
             if d:
                 broken.append("correspondence %s: %r" % (d[0]["layer"], d[0]))
         if ev_missing:
@@ -1405,7 +1606,7 @@ def run(res, tier, seed, proof_broken, replay):
                 res.violation({"property": PID, "kind": "provider contract fails on implementation", "failing": hit, "broken": broken})
             else:
                 res.violation({"property": PID, "kind": "proof obligation or correspondence no longer checks", "broken": broken,
-                               "first_disagreements": (d1 + d2 + d3 + d4)[:3]}, no_input=True)
+                               "first_disagreements": (d1 + d2 + d3 + d4 + d5)[:3]}, no_input=True)
     finally:
         mockb.restore()
         fsb.cleanup()
